@@ -72,6 +72,8 @@ def needed(spec, removed_defuzz):
         if not b.get("enabled", True):
             continue
         for r in b["rules"]:
+            if r.get("loadable") is False:
+                continue  # "needed by the *loaded* rules": a rule that cannot load never fires
             ops = gen.ante_ops(r["ante"])
             if "and" in ops:
                 need.add(("block", bi, "conjunction"))
@@ -103,9 +105,10 @@ def subsets_for(comps, extra):
             yield s
 
 
-def process_rows(e, rows):
+def process_rows(e, rows, restart=True):
     for row in rows:
-        e.restart()
+        if restart:  # (not for engines holding a rule that cannot load: restart() reloads the rules and reports it)
+            e.restart()
         for v, x in zip(e.input_variables, row):
             v.value = float(x)
         e.process()
@@ -119,7 +122,23 @@ def connective_kind(spec):
 def check_base(ctx, case) -> None:
     spec, rows = case["spec"], case["rows"]
     only = case.get("subset")  # replay of one subset
-    e = build.mk_engine(spec)
+    if case.get("bare"):
+        # a wired-in input variable without terms, referenced through `any` (the only proposition that needs no term):
+        # such a rule does not load; the engine is assembled with load=False and the load error is the caller's
+        e = fl.Engine(name="E", input_variables=[build.mk_input(v) for v in spec["inputs"]],
+                      output_variables=[build.mk_output(v) for v in spec["outputs"]],
+                      rule_blocks=[build.mk_block(b) for b in spec["blocks"]], load=False)
+        for v in e.variables:
+            for t in v.terms:
+                t.update_reference(e)
+        for rb in e.rule_blocks:
+            try:
+                rb.load_rules(e)
+            except RuntimeError:
+                ctx.cls("rule_on_termless_variable_did_not_load")
+        ctx.cls("bases_with_termless_variable")
+    else:
+        e = build.mk_engine(spec)
     base_ops = {}
     for (kind, i, k) in components(spec):
         target = e.rule_blocks[i] if kind == "block" else e.output_variables[i]
@@ -140,7 +159,7 @@ def check_base(ctx, case) -> None:
     todo = [frozenset(tuple(c) for c in only)] if only is not None else subsets_for(comps, case.get("masks", []))
     for subset in todo:
         sub = sorted(subset)
-        sc = {"spec": spec, "rows": rows, "subset": [list(c) for c in sub]}
+        sc = {"spec": spec, "rows": rows, "subset": [list(c) for c in sub], "bare": case.get("bare")}
         apply_subset(e, base_ops, subset)
         ctx.ev()
         errors: list[str] = []
@@ -170,7 +189,7 @@ def check_base(ctx, case) -> None:
         # (->) ready implies processable
         if ready:
             try:
-                process_rows(e, rows)
+                process_rows(e, rows, restart=not case.get("bare"))
             except Exception as ex:  # noqa: BLE001
                 ctx.fail("ready-but-process-raises", sc, {"exception": f"{type(ex).__name__}: {ex}"[:300],
                                                           "removed": [list(c) for c in sub]})
@@ -197,13 +216,31 @@ def cases(draw):
             r["tight"] = False
             if not r["enabled"] and draw(st.booleans()):
                 r["enabled"] = True
+    bare = draw(st.integers(0, 5)) == 0
     rows = []
     for _ in range(draw(st.integers(1, 3))):
         row = draw(gen.input_row(spec))
         rows.append([x if math.isfinite(x) else (v["min"] + v["max"]) / 2 if math.isfinite(v["min"] + v["max"]) else 0.0
                      for x, v in zip(row, spec["inputs"])])
     masks = draw(st.lists(st.integers(0, 2 ** 10 - 1), min_size=64, max_size=64)) if two else []
-    return {"spec": spec, "rows": rows, "masks": masks}
+    if bare:
+        v0, o0 = spec["inputs"][0], spec["outputs"][0]
+        spec["inputs"].append({"name": "Bare", "description": "", "enabled": True, "min": 0.0, "max": 1.0,
+                               "lock_range": False, "terms": []})
+        for r in rows:
+            r.append(0.5)
+        n_old = len(spec["inputs"]) - 1
+        for o in spec["outputs"]:
+            for t in o["terms"]:
+                if t["cls"] == "Linear":  # one coefficient per input variable: the new variable gets 0
+                    t["p"] = list(t["p"][:n_old]) + [0.0] + list(t["p"][n_old:])
+        spec["blocks"][0]["rules"].append({
+            "ante": {"op": draw(st.sampled_from(["and", "or"])),
+                     "l": {"var": v0["name"], "hedges": [], "term": v0["terms"][0]["name"], "rp": False},
+                     "r": {"var": "Bare", "hedges": ["any"], "term": None, "rp": False}, "rp": False},
+            "cons": [{"var": o0["name"], "hedges": [], "term": o0["terms"][0]["name"]}], "weight": None,
+            "enabled": True, "tight": False, "loadable": False})
+    return {"spec": spec, "rows": rows, "masks": masks, "bare": bare}
 
 
 def shard(ctx, shard, nshards, ex):
